@@ -3,12 +3,14 @@ use serde_json::Value;
 
 pub mod c09;
 pub mod c10;
+pub mod c16;
 pub mod e2e_paths;
 
 pub fn run(ctx: &Ctx) -> Option<Report> {
     match ctx.id.as_str() {
         "C09" => Some(c09::run(ctx)),
         "C10" => Some(c10::run(ctx)),
+        "C16" => Some(c16::run(ctx)),
         _ => None,
     }
 }
@@ -19,6 +21,7 @@ pub fn replay(id: &str, doc: &Value) -> i32 {
         _ if !case["e2e"].is_null() => crate::e2e::replay(case),
         "C09" => c09::replay(case),
         "C10" => c10::replay(case),
+        "C16" => c16::replay(case),
         _ => {
             eprintln!("no replay for {}", id);
             2
